@@ -239,7 +239,7 @@ pub struct FileOutcome {
 macro_rules! bed_file {
     ($fname:ident, $n:literal, $build:ident, $lazy:expr, $owned:expr) => {
         /// All records have `$n` standard fields; written with one writer, read with one reused `Record`.
-        pub fn $fname(recs: &[BRec]) -> FileOutcome {
+        pub fn $fname(recs: &[BRec], mode: u8) -> FileOutcome {
             let mut out = FileOutcome { violations: Vec::new(), written: None, rejected: false };
             let decoded = recs.iter().map(literal).collect::<Vec<_>>().join("; ");
             let mut w = bed::io::Writer::<$n, _>::new(Vec::new());
@@ -289,9 +289,21 @@ macro_rules! bed_file {
             // read back with one reused lazy record
             let res = vmc::catch(|| {
                 let mut r = bed::io::Reader::<$n, _>::new(&bytes[..]);
-                let mut rec = bed::Record::<$n>::default();
+                // mode 0: one reused record; 1: one reused record pre-dirtied with an unrelated
+                // longer line; 2: a fresh record per read
+                let mk = || {
+                    let mut rec = bed::Record::<$n>::default();
+                    if mode == 1 {
+                        bed::io::Reader::<$n, _>::new(DIRTY_LINE).read_record(&mut rec).expect("dirty line");
+                    }
+                    rec
+                };
+                let mut rec = mk();
                 let mut v: Vec<Result<(BText, Result<BText, String>), String>> = Vec::new();
                 for _ in 0..recs.len() + 2 {
+                    if mode == 2 {
+                        rec = mk();
+                    }
                     match r.read_record(&mut rec) {
                         Ok(0) => break,
                         Ok(_) => {
@@ -500,11 +512,203 @@ bed_file!(
     }
 );
 
+const DIRTY_LINE: &[u8] = b"dirtychromosomename\t12345678\t987654321\tdirty name\t999\t+\td1\td2\td3\td4\td5\td6\td7\td8\td9\n";
+
+pub const READ_MODES: [&str; 3] = ["reused-clean", "reused-dirty", "fresh"];
+
 pub fn check_file(recs: &[BRec]) -> FileOutcome {
-    match recs[0].n {
-        3 => check3(recs),
-        4 => check4(recs),
-        5 => check5(recs),
-        _ => check6(recs),
+    check_file_mode(recs, 0)
+}
+
+pub fn check_file_mode(recs: &[BRec], mode: u8) -> FileOutcome {
+    let mut out = match recs[0].n {
+        3 => check3(recs, mode),
+        4 => check4(recs, mode),
+        5 => check5(recs, mode),
+        _ => check6(recs, mode),
+    };
+    if mode != 0 {
+        for v in out.violations.iter_mut() {
+            v.fingerprint.push_str(&format!(" mode={}", READ_MODES[mode as usize]));
+        }
     }
+    out
+}
+
+/// Independent rendering of the columns of an accepted record (BED v1.0: 0-based start, `0` for a
+/// missing end, `.` for a missing name / strand).
+pub fn expected_columns(x: &BRec) -> Vec<B> {
+    let mut c: Vec<B> = vec![x.chrom.clone(), (x.start - 1).to_string().into_bytes(), x.end.map(|e| e.to_string()).unwrap_or_else(|| "0".into()).into_bytes()];
+    if x.n >= 4 {
+        c.push(x.name.clone().unwrap_or_else(|| b".".to_vec()));
+    }
+    if x.n >= 5 {
+        c.push(x.score.to_string().into_bytes());
+    }
+    if x.n >= 6 {
+        c.push(match x.strand {
+            None => b".".to_vec(),
+            Some(true) => b"+".to_vec(),
+            Some(false) => b"-".to_vec(),
+        });
+    }
+    c.extend(x.others.iter().map(|v| v.text()));
+    c
+}
+
+/// One item of a writer sequence.
+#[derive(Clone, Debug)]
+pub enum WItem {
+    /// written through `write_feature_record(&RecordBuf<N>)`; `Some(reason)` = the specification refuses it
+    Rec(BRec, Option<&'static str>),
+    /// a lazy record whose start column does not parse, through `write_record(&Record<N>)`
+    LazyBadStart,
+}
+
+pub struct SeqOutcome {
+    pub bytes: B,
+    /// per item: (accepted, bytes left behind by a refused write)
+    pub steps: Vec<(bool, usize)>,
+}
+
+macro_rules! bed_wseq {
+    ($fname:ident, $n:literal, $build:ident) => {
+        pub fn $fname(items: &[WItem]) -> SeqOutcome {
+            let mut w = bed::io::Writer::<$n, _>::new(Vec::new());
+            let mut steps = Vec::new();
+            let mut bad = bed::Record::<$n>::default();
+            bed::io::Reader::<$n, _>::new(&b"sq0\tx\t1\tn\t0\t+\n"[..]).read_record(&mut bad).expect("lazy line");
+            for it in items {
+                let before = w.get_ref().len();
+                let res = match it {
+                    WItem::Rec(x, _) => w.write_feature_record(&$build(x)),
+                    WItem::LazyBadStart => w.write_record(&bad),
+                };
+                let after = w.get_ref().len();
+                steps.push((res.is_ok(), if res.is_ok() { 0 } else { after - before }));
+            }
+            SeqOutcome { bytes: w.into_inner(), steps }
+        }
+    };
+}
+
+bed_wseq!(wseq3, 3, build3);
+bed_wseq!(wseq4, 4, build4);
+bed_wseq!(wseq5, 5, build5);
+bed_wseq!(wseq6, 6, build6);
+
+pub fn writer_seq(n: usize, items: &[WItem]) -> SeqOutcome {
+    match n {
+        3 => wseq3(items),
+        4 => wseq4(items),
+        5 => wseq5(items),
+        _ => wseq6(items),
+    }
+}
+
+/// Presence-spanning records with `n` standard fields: 0 / 1 / 3 / 6 / 9 other fields, name and end
+/// present / missing, long and short columns, empty other fields.
+pub fn reuse_set(n: usize) -> Vec<BRec> {
+    let sv = |x: &str| BVal::S(x.as_bytes().to_vec());
+    let mut long = BRec::plain(n);
+    long.chrom = b"chromosome_with_a_long_name_1".to_vec();
+    long.start = 123456789;
+    long.end = Some(987654321);
+    long.name = Some(b"a long feature name".to_vec());
+    long.score = 1000;
+    long.strand = Some(true);
+    long.others = (0..9).map(|i| sv(&format!("a_long_other_field_{i}"))).collect();
+    let mut short = BRec::plain(n);
+    short.chrom = b"1".to_vec();
+    short.end = None;
+    short.name = None;
+    let mut three = BRec::plain(n);
+    three.others = vec![BVal::I(-5), BVal::U(7), sv("x")];
+    three.strand = Some(false);
+    let mut one = BRec::plain(n);
+    one.name = None;
+    one.others = vec![sv("x")];
+    let mut six = BRec::plain(n);
+    six.name = Some(b" ".to_vec());
+    six.others = vec![sv(""), sv("a"), sv(""), sv("0,10,"), sv("b"), sv("")];
+    let mut empty_other = BRec::plain(n);
+    empty_other.score = 65535;
+    empty_other.others = vec![sv("")];
+    vec![BRec::plain(n), long, short, three, one, six, empty_other]
+}
+
+pub fn witems(n: usize) -> Vec<WItem> {
+    let set = reuse_set(n);
+    let sv = |x: &[u8]| BVal::S(x.to_vec());
+    let mut not_alnum = BRec::plain(n);
+    not_alnum.chrom = b"chr-1".to_vec();
+    let mut empty_chrom = BRec::plain(n);
+    empty_chrom.chrom = Vec::new();
+    let mut bad_name = BRec::plain(n);
+    bad_name.name = Some(b"\xc3\xa9".to_vec());
+    let mut bad_other = BRec::plain(n);
+    bad_other.others = vec![sv(b"ok"), sv(b"a\xc3\xa9"), sv(b"z")];
+    let mut bad_char = BRec::plain(n);
+    bad_char.others = vec![BVal::I(1), BVal::C(0x07)];
+    vec![
+        WItem::Rec(set[0].clone(), None),
+        WItem::Rec(set[1].clone(), None),
+        WItem::Rec(set[2].clone(), None),
+        WItem::Rec(not_alnum, Some("chrom-not-alphanumeric")),
+        WItem::Rec(empty_chrom, Some("chrom-empty")),
+        WItem::Rec(bad_name, if n >= 4 { Some("name-not-printable") } else { None }),
+        WItem::Rec(bad_other, Some("other-string-not-printable")),
+        WItem::Rec(bad_char, Some("other-character-not-printable")),
+        WItem::LazyBadStart,
+    ]
+}
+
+/// The finished output of a writer sequence must be exactly the accepted records' lines.
+pub fn judge_seq(n: usize, items: &[WItem]) -> Option<Violation> {
+    let out = writer_seq(n, items);
+    let accepted: Vec<&WItem> = items.iter().zip(&out.steps).filter(|(_, st)| st.0).map(|(it, _)| it).collect();
+    let reason_of = |it: &WItem| match it {
+        WItem::Rec(_, r) => r.unwrap_or("unexpected-refusal"),
+        WItem::LazyBadStart => "lazy-record-with-unparsable-start",
+    };
+    let left = items.iter().zip(&out.steps).find(|(_, st)| !st.0 && st.1 > 0);
+    let mut lines: Vec<&[u8]> = out.bytes.split_inclusive(|&c| c == b'\n').collect();
+    if lines.last().map(|l| l.is_empty()).unwrap_or(false) {
+        lines.pop();
+    }
+    let mut problem = None;
+    if lines.len() != accepted.len() {
+        problem = Some(format!("{} lines for {} accepted writes", lines.len(), accepted.len()));
+    } else {
+        for (l, it) in lines.iter().zip(&accepted) {
+            let ok = match (l.strip_suffix(b"\n"), it) {
+                (Some(body), WItem::Rec(x, _)) => body.split(|&c| c == b'\t').map(|c| c.to_vec()).collect::<Vec<_>>() == expected_columns(x),
+                _ => false,
+            };
+            if !ok {
+                problem = Some(format!("line {} is not the accepted record", lit(l)));
+                break;
+            }
+        }
+    }
+    let problem = problem?;
+    let (field, reason) = match left {
+        Some((it, _)) => ("rejected-write-left-partial-line", reason_of(it)),
+        None => ("output-differs-from-accepted-records", "none"),
+    };
+    let decoded = items
+        .iter()
+        .map(|it| match it {
+            WItem::Rec(x, None) => format!("write_feature_record({})", literal(x)),
+            WItem::Rec(x, Some(why)) => format!("write_feature_record({}) [refused: {why}]", literal(x)),
+            WItem::LazyBadStart => "write_record(&lazy record read from \"sq0\\tx\\t1\\tn\\t0\\t+\") [refused: start does not parse]".to_string(),
+        })
+        .collect::<Vec<_>>()
+        .join("; ");
+    Some(Violation::new(
+        format!("fmt=bed stage=writer-seq n={n} reason={reason} field={field}"),
+        format!("one Writer<{n}>: {decoded}"),
+        format!("output = the {} accepted lines, nothing else", accepted.len()),
+        format!("{problem}; output = {}; bytes left by refused writes: {:?}", lit(&out.bytes), out.steps.iter().map(|s| s.1).collect::<Vec<_>>()),
+    ))
 }
